@@ -3,6 +3,7 @@ import EaselModel.Simd.LogExpLemmas
 import EaselModel.Simd.RealLanes
 import EaselModel.Vec.Real
 import EaselModel.Vec.XReal
+import EaselModel.Vec.Rounded
 /-! # C20 — vector and SIMD numeric kernels compute their definition for every input
 
 Property theorems only (proofs are glue on the lemmas of `Simd/Lemmas.lean`, `Simd/LogExpLemmas.lean`, `Vec/Real.lean`, `Vec/XReal.lean`).
@@ -222,5 +223,16 @@ theorem log2Sum_spec_F (v : List XR) (hv : ∀ x ∈ v, x.isLogP) (hfin : finite
       |r - Real.logb 2 ((finites v).map fun a => (2 : ℝ) ^ a).sum| ≤ v.length * (2 : ℝ) ^ (-50 : ℝ) / Real.log 2 := @Vec.log2Sum_spec winF v hv hfin
 theorem isum_eq (v : List Int) : isum v = v.sum := Vec.isum_eq v
 theorem idot_eq (v w : List Int) : idot v w = (List.zipWith (· * ·) v w).sum := Vec.idot_eq v w
+
+/-! ## C. rounding error (standard model of floating-point arithmetic: `|fl x - x| ≤ u|x|` after every operation; that IEEE
+    binary64/32 satisfy it away from overflow/underflow is the trusted fact) -/
+/-- `Dot`, evaluated with rounding after every multiplication and addition, is within `((1+u)^(2n) - 1)·Σ|x_i y_i|` of the exact
+    dot product (n = length): the "within rounding error" clause for the plain accumulation loops.  (The sharper Kahan bound
+    `(2u + O(nu²))·Σ|x_i|` for `Sum` is NOT proved; `sum_eq_real` shows the compensation term is exactly zero over ℝ, and the
+    monitor measures `|result - exact| ≤ 3u·Σ|x_i|` on every generated vector.) -/
+theorem dot_rounding [Rnd] (v w : List RR) :
+    |(dot v w).val - exactDot v w| ≤ ((1 + Rnd.u) ^ (2 * min v.length w.length) - 1) * absDot v w := Vec.dot_rounding v w
+/-- non-vacuity: exact arithmetic is a rounding with `u = 0`; so is "round then perturb by at most u" for any u -/
+example : Rnd := { fl := id, u := 0, u_nonneg := le_refl _, err := fun x => by simp }
 
 end EaselModel.Props.C20
